@@ -77,6 +77,7 @@ structure Regs where
   am : Bool := true             -- auto-margin
   title : Bytes := []
   tstack : List Bytes := []     -- the terminal's stack of saved titles
+deriving DecidableEq, Repr
 
 /-- one register (or a group of coupled registers) with the effect of every capability string and draw command on it -/
 structure Comp (α : Type) where
